@@ -54,6 +54,12 @@ func init() {
 		"vfTrackWrites": vfTrackWrites,
 		"vfSharedWrites": vfSharedWrites,
 		"vfFail":        vfFail,
+		// vfSetCPUs(n): runtime.NumCPU() and runtime.GOMAXPROCS(0) report n from here on
+		"vfSetCPUs": func(fr *frame, args []value) value {
+			fr.i.ex.impure("vfSetCPUs")
+			fr.i.ex.cpus = int(asInt64(args[0]))
+			return nil
+		},
 		// vfUnsupported(msg): the harness does not understand what it observes (e.g. a changed
 		// traversal): the task is not-run (check reported broken), never a verdict
 		"vfUnsupported": func(fr *frame, args []value) value { panic(Unsupported{"harness: " + strArg(args[0])}) },
@@ -251,6 +257,10 @@ func vfIntRange(ex *Exec, name string, lo, hi int64) value {
 	}
 	t := ex.Input(name, smt.Int)
 	ex.assume(ex.C.And(ex.C.Ge(t, ex.C.IntC(lo)), ex.C.Le(t, ex.C.IntC(hi))), true)
+	if ex.C.VarBounds == nil {
+		ex.C.VarBounds = map[string][2]int64{}
+	}
+	ex.C.VarBounds[name] = [2]int64{lo, hi}
 	return sym{t, types.Int}
 }
 func vfInt(fr *frame, args []value) value {
